@@ -5,6 +5,7 @@ import (
 	"fmt"
 	"io"
 	"net"
+	"runtime"
 	"sort"
 	"strings"
 	"sync"
@@ -65,6 +66,7 @@ func c26Setup() {
 type c26Conn struct {
 	net.Conn
 	left **int // bytes until the connection breaks; nil or <0: never
+	hard *bool // the break lasts (see Write)
 	r    *simkit.Run
 }
 
@@ -76,10 +78,22 @@ func (c *c26Conn) SetReadDeadline(time.Time) error  { return nil }
 func (c *c26Conn) SetWriteDeadline(time.Time) error { return nil }
 
 func (c *c26Conn) Write(b []byte) (int, error) {
+	// -2: the server stays unreachable (every connection breaks at once) until the harness lifts the fault: the
+	// client's retries are used up and the merge fails in the middle
+	if left := *c.left; left != nil && *left == -2 {
+		_ = c.Conn.Close()
+
+		return 0, errC26Reset
+	}
+
 	if left := *c.left; left != nil && *left >= 0 {
 		if *left < len(b) {
 			n := *left
 			*left = -1
+
+			if c.hard != nil && *c.hard {
+				*left = -2
+			}
 
 			c.r.Fault("redis_connection_reset")
 
@@ -246,6 +260,11 @@ func readKind(k string) string {
 }
 
 func c26Run(r *simkit.Run) {
+	// go-redis keeps stopped timers in a package-level sync.Pool (pool.waitTurn); a timer made in an earlier bubble
+	// must not be selected on in this one: two collections empty the pool and its victim cache
+	runtime.GC()
+	runtime.GC()
+
 	encs, enc := common.Encs()
 
 	c26MR.FlushAll()
@@ -277,6 +296,8 @@ func c26Run(r *simkit.Run) {
 	// the redis side
 	var breakAfter *int
 
+	breakHard := false
+
 	noRetry := r.Flag("no_client_retry") // then no connection faults
 	prefix := "verif"
 
@@ -292,7 +313,7 @@ func c26Run(r *simkit.Run) {
 
 				conns = append(conns, a)
 
-				return &c26Conn{Conn: a, left: &breakAfter, r: r}, nil
+				return &c26Conn{Conn: a, left: &breakAfter, hard: &breakHard, r: r}, nil
 			},
 			PoolSize:         1 + r.Choose(3),
 			DisableIndentity: true,
@@ -459,22 +480,33 @@ func c26Run(r *simkit.Run) {
 
 			// the redis merge, maybe over a connection that breaks inside it: the client retries on a new
 			// connection (every command of a merge is an idempotent write). A merge that fails all the same
-			// ends the run unjudged: the property speaks of merged blocks.
+			// is repeated below.
 			if !noRetry && r.Chance(1, 4) {
 				n := r.Choose(3000)
 				breakAfter = &n
+				breakHard = r.Chance(1, 2)
 			}
 
 			if err := rperm.MergeTempDatabase(context.Background(), temp); err != nil {
-				if breakAfter != nil {
-					r.Probe("merge_failed_after_connection_reset_unjudged")
+				if breakAfter == nil {
+					r.Fail("redis-merge-error", "error", "merge of block %d into redis failed without an injected fault: %+v", b.h, err)
 
 					return
 				}
 
-				r.Fail("redis-merge-error", "error", "merge of block %d into redis failed without an injected fault: %+v", b.h, err)
+				// the merge failed in the middle: the node merges the same temp database again (Center retries
+				// un-merged temps); once that succeeds the two back-ends must agree again, whatever the first
+				// attempt had already written
+				r.Probe("merge_failed_after_connection_reset")
+				breakAfter = nil
 
-				return
+				if err := rperm.MergeTempDatabase(context.Background(), temp); err != nil {
+					r.Probe("repeated_merge_failed_unjudged")
+
+					return
+				}
+
+				r.Probe("merge_repeated_after_connection_reset")
 			}
 
 			breakAfter = nil
@@ -521,7 +553,7 @@ func init() {
 		Setup:       c26Setup,
 		Real:        []string{"isaacdatabase.RedisPermanent", "storage/redis.Storage", "go-redis v9 client", "isaacdatabase.LeveldbPermanent (the reference)", "isaacdatabase.LeveldbBlockWrite / TempLeveldb on memory goleveldb"},
 		Stub:        []string{"Redis server: miniredis v2.33 in-process, every connection a net.Pipe served inside the run (no socket traffic)", "connection resets inside merges (harness)"},
-		Rule:        "each run merges 1-6 (thorough up to 11) generated blocks (states incl. suffrage and policy changes, known operations, optional 120+ state blocks, height gaps) into a RedisPermanent and a LeveldbPermanent from the same TempLeveldb; after merges and after reopening both, every PermanentDatabase read (last/by-height block maps and their bytes, suffrage proofs by suffrage height / block height / last and their bytes, states and their bytes, in-state and known operations, last policy) is compared between the two. In a quarter of the merges (client retry enabled) the Redis connection breaks after a drawn number of bytes and the client continues on a new connection; a merge that fails all the same ends the run unjudged. distinct = event-log hash",
+		Rule:        "each run merges 1-6 (thorough up to 11) generated blocks (states incl. suffrage and policy changes, known operations, optional 120+ state blocks, height gaps) into a RedisPermanent and a LeveldbPermanent from the same TempLeveldb; after merges and after reopening both, every PermanentDatabase read (last/by-height block maps and their bytes, suffrage proofs by suffrage height / block height / last and their bytes, states and their bytes, in-state and known operations, last policy) is compared between the two. In a quarter of the merges (client retry enabled) the Redis connection breaks after a drawn number of bytes and the client continues on a new connection; a merge that fails all the same is repeated (as Center does with un-merged temps) and the comparison goes on. distinct = event-log hash",
 		Assumptions: []string{"miniredis implements the Redis commands used (GET/SET/EXISTS/ZADD/ZRANGE BYLEX/SCAN/DEL/pipelines) faithfully", "a merge that returns an error is not a merged block: the run ends unjudged"},
 	})
 }
